@@ -103,15 +103,37 @@ example : NoHuge Flatland.Generated.C04.pyTables (.int 12345) = true := by
 /-- **reset_text** (partial: `Coherent`, see KF-C04-c) — after a successful `set`, setting `.u`
     again completes and reproduces the same `.u`. -/
 theorem reset_text_partial (E : Env) (hT : E.T.OK) (k : Kind) (x : Native) (r : SetResult)
-    (hm : Modelled k = true) (hc : Coherent k = true) (hw : WidthOK E.T k = true)
-    (hx : NoHuge E.T x = true) (hwf : Native.WF x = true)
+    (hm : Modelled k = true) (hc : Coherent k = true) (hcn : CoherentNone k = true)
+    (hw : WidthOK E.T k = true) (hx : NoHuge E.T x = true) (hwf : Native.WF x = true)
     (h : setScalar E k x = .ok r) (hf : r.flag = true) :
     ∃ r', setScalar E k (.str r.st.u) = .ok r' ∧ r'.st.u = r.st.u := by
   obtain ⟨v, ha, _, hu⟩ := set_success E k x r h hf
   have hv := adapt_value E hT k x v hx hwf ha
-  rcases reset_u_value E hT k hm hc hw v r.st.u hv hu with h1 | ⟨v', h1, h2⟩
+  rcases reset_u_value E hT k hm hc hw v r.st.u hv hu (fun _ => hcn) with h1 | ⟨v', h1, h2⟩
   · exact ⟨⟨⟨.str r.st.u, .none, r.st.u⟩, false, [false]⟩, by simp [setScalar, h1, uOfFailed], rfl⟩
   · exact ⟨⟨⟨.str r.st.u, v', r.st.u⟩, true, [true]⟩, by simp [setScalar, h1, h2], rfl⟩
+
+/-- **norm_idem** — text in, text out: `norm k text` is the text `K().set(text)` leaves in `.u`;
+    normalising twice is normalising once.  (This is the `Settled` instance used by C01/C02/C03:
+    only the text-side hypothesis `Coherent` is needed, because text never adapts to None.) -/
+theorem norm_idem (E : Env) (hT : E.T.OK) (hE : EnvTotal E) (k : Kind)
+    (hm : Modelled k = true) (hc : Coherent k = true) (hw : WidthOK E.T k = true) (s : Str) :
+    norm E k (norm E k s) = norm E k s := by
+  obtain ⟨r, hr⟩ := set_total_text E hT hE k s
+  have hn : norm E k s = r.st.u := by simp [norm, hr]
+  rw [hn]
+  by_cases hf : r.flag = true
+  · obtain ⟨v, ha, _, hu⟩ := set_success E k (.str s) r hr hf
+    have hv := adapt_value E hT k (.str s) v rfl rfl ha
+    rcases reset_u_value E hT k hm hc hw v r.st.u hv hu
+        (fun h => absurd h (adapt_str_ne_none E k s v ha)) with h1 | ⟨v', h1, h2⟩
+    · simp [norm, setScalar, h1, uOfFailed]
+    · simp [norm, setScalar, h1, h2]
+  · have hff : r.flag = false := by simpa using hf
+    obtain ⟨_, hu⟩ := set_failure E k (.str s) r hr hff
+    simp only [uOfFailed, Except.ok.injEq] at hu
+    rw [← hu, hn]
+    exact hu.symm
 
 /-- **reset_value** (partial: `Coherent` and `ExactInput`, see KF-C04-b/c) — for the exactly
     serialising kinds a value other than None is reproduced, with a True flag, by setting `.u`. -/
